@@ -253,6 +253,27 @@ def r18_4(rep: Report) -> None:
                          and isinstance(n.func, ast.Attribute)
                          and (n.func.attr.startswith('check_') or n.func.attr == 'add_error')]:
                 fn = enclosing_function(call)
+                # a local that only names the expectation: expected = self.expected_decode_time
+                alias: dict[str, str] = {}
+                if fn is not None:
+                    for a_ in ast.walk(fn):
+                        if isinstance(a_, (ast.Assign, ast.AnnAssign)) and getattr(a_, 'value', None) is not None:
+                            tg_ = a_.targets[0] if isinstance(a_, ast.Assign) and len(a_.targets) == 1 else getattr(a_, 'target', None)
+                            if isinstance(tg_, ast.Name) and isinstance(a_.value, ast.Attribute) and norm(a_.value.value) == 'self':
+                                alias[tg_.id] = a_.value.attr if tg_.id not in alias else ''
+                    for x_ in ast.walk(fn):
+                        if isinstance(x_, ast.Name) and isinstance(x_.ctx, ast.Store) and x_.id in alias:
+                            n_st = sum(1 for y_ in ast.walk(fn) if isinstance(y_, ast.Name) and y_.id == x_.id
+                                       and isinstance(y_.ctx, ast.Store))
+                            if n_st != 1:
+                                alias[x_.id] = ''
+
+                def self_attr(e: ast.AST) -> str | None:
+                    if isinstance(e, ast.Attribute) and norm(e.value) == 'self':
+                        return e.attr
+                    if isinstance(e, ast.Name) and alias.get(e.id):
+                        return alias[e.id]
+                    return None
                 child = call
                 for a in _ancestors(call):
                     if isinstance(a, ast.If) and any(child is x or _contains(x, child) for x in a.body):
@@ -261,13 +282,13 @@ def r18_4(rep: Report) -> None:
                         for t in conj:
                             attr = None
                             truthy = False
-                            if isinstance(t, ast.Attribute) and norm(t.value) == 'self':
-                                attr, truthy = t.attr, True
+                            if self_attr(t) is not None:
+                                attr, truthy = self_attr(t), True
                             elif isinstance(t, ast.Compare) and isinstance(t.ops[0], ast.IsNot) \
-                                    and isinstance(t.left, ast.Attribute) and norm(t.left.value) == 'self' \
+                                    and self_attr(t.left) is not None \
                                     and isinstance(t.comparators[0], ast.Constant) \
                                     and t.comparators[0].value is None:
-                                attr = t.left.attr
+                                attr = self_attr(t.left)
                             if attr not in opt:
                                 continue
                             construct = f'{rel}::{cls.name}.{fn.name if fn else "?"}'
@@ -279,6 +300,37 @@ def r18_4(rep: Report) -> None:
                                          'treated as "no expectation" and the check is skipped', a, file=rel)
                             else:
                                 rep.ok(rid, construct, key, f'guard `self.{attr} is not None`')
+                    # the same guard written as an early exit in front of the check: `if self.x is None: return`
+                    for fld in ('body', 'orelse', 'finalbody'):
+                        blk_ = getattr(a, fld, None)
+                        if not (isinstance(blk_, list) and any(child is x for x in blk_)):
+                            continue
+                        for prev in blk_[:[i_ for i_, x in enumerate(blk_) if x is child][0]]:
+                            if not (isinstance(prev, ast.If) and not prev.orelse and prev.body
+                                    and isinstance(prev.body[-1], (ast.Return, ast.Continue, ast.Raise, ast.Break))):
+                                continue
+                            t = prev.test
+                            attr = None
+                            truthy = False
+                            if isinstance(t, ast.UnaryOp) and isinstance(t.op, ast.Not) and self_attr(t.operand) is not None:
+                                attr, truthy = self_attr(t.operand), True
+                            elif isinstance(t, ast.Compare) and len(t.ops) == 1 and isinstance(t.ops[0], ast.Is) \
+                                    and self_attr(t.left) is not None and isinstance(t.comparators[0], ast.Constant) \
+                                    and t.comparators[0].value is None:
+                                attr = self_attr(t.left)
+                            if attr not in opt or not any(
+                                    self_attr(x) == attr for arg in list(call.args) + [k.value for k in call.keywords]
+                                    for x in ast.walk(arg)):
+                                continue
+                            construct = f'{rel}::{cls.name}.{fn.name if fn else "?"}'
+                            key = f'{call.func.attr} under self.{attr}'
+                            if truthy:
+                                rep.fail(rid, construct, key,
+                                         f'`{short(call, 60)}` is skipped by `{short(prev, 40)}` when `self.{attr}` ({opt[attr]}) is '
+                                         'not truthy: an expectation of 0 (first segment, decode time 0) is treated as '
+                                         '"no expectation" and the check is skipped', prev, file=rel)
+                            else:
+                                rep.ok(rid, construct, key, f'early exit on `self.{attr} is None`')
                     if isinstance(a, (ast.FunctionDef, ast.AsyncFunctionDef)):
                         break
                     child = a
@@ -874,6 +926,18 @@ def r18_10(rep: Report) -> None:
                 if isinstance(st, ast.If) and any(isinstance(b, ast.Return) for b in st.body):
                     for x in ast.walk(st.test):
                         if isinstance(x, ast.Attribute) and norm(x.value) == 'self' and x.attr in carried:
+                            # "nothing to iterate over": the guarded call is a helper of this class that only walks the
+                            # carried collection the test finds empty (the loop that used to stand here, extracted)
+                            t_ = norm(st.test)
+                            empty = t_ in (f'len(self.{x.attr}) == 0', f'not self.{x.attr}', f'not len(self.{x.attr})')
+                            callee = None
+                            if recv == 'self':
+                                for k in lineage(name):
+                                    callee = callee or find_func(k, call.func.attr, raw=True)
+                            walks = callee is not None and any(
+                                isinstance(l_, (ast.For, ast.AsyncFor)) and f'self.{x.attr}' in norm(l_.iter) for l_ in ast.walk(callee))
+                            if empty and walks:
+                                continue
                             bad = (call, st, x.attr)
         if bad is None:
             rep.ok(rid, construct, 'own checks not guarded by carried state', f'carried over a refresh: {sorted(carried)}')
